@@ -832,6 +832,173 @@ func checkProducerClose(w *World, r *Report, pfx string) {
 	}
 }
 
+// checkIteratorConsumers: (L-EARLYEXIT) a consumer that leaves its range over an iterator before the
+// iterator is exhausted closes the request's drop signal first (the heap loop is blocked offering
+// the next bar and has no other way out); (H-ITERUSE) the ordered iterator - which removes the bars
+// from the heap while it hands them out - is only ever requested for flush, the one consumer that
+// pushes them back.
+func checkIteratorConsumers(w *World, r *Report, pfx string) {
+	dropOrigins := w.fieldOrigins("iterData.drop")
+	n := 0
+	for _, fn := range w.ModFns {
+		for _, op := range w.Comm().byFn[fn] {
+			if op.Kind != "recv" || !op.CommaOk {
+				continue
+			}
+			// is it an iterator of the heap protocol?
+			isIter := false
+			for k := range w.fieldOrigins("iterData.iter") {
+				if op.Class.has(k) {
+					isIter = true
+				}
+			}
+			for k := range w.fieldOrigins("iterData.iterPop") {
+				if op.Class.has(k) {
+					isIter = true
+				}
+			}
+			if !isIter && !(op.Class.has("iterData.iter") || op.Class.has("iterData.iterPop")) {
+				// a parameter fed from such a field / argument
+				continue
+			}
+			var loop *loopInfo
+			for _, l := range naturalLoops(fn) {
+				if l.Header == op.Instr.Block() {
+					loop = l
+				}
+			}
+			if loop == nil {
+				continue
+			}
+			n++
+			var body *ssa.BasicBlock
+			for _, sc := range loop.Header.Succs {
+				if loop.Blocks[sc] && sc != loop.Header {
+					body = sc
+				}
+			}
+			bad := ""
+			if body != nil {
+				hdr := loop.Header
+				w.enumPaths(fn, pathOpts{Start: body, StopAt: func(b *ssa.BasicBlock) bool { return b == hdr }}, func(p *Path) {
+					// "stop": back at the header for the next element; "return": the path left the loop
+					// from inside its body (break / return) and ran on to the function's end
+					if p.Exit != "return" {
+						return
+					}
+					closed := false
+					for _, ev := range p.Events {
+						if o := w.Comm().byIn[ev.In]; o != nil && o.Kind == "close" {
+							for k := range dropOrigins {
+								if o.Class.has(k) {
+									closed = true
+								}
+							}
+							if o.Class.has("iterData.drop") || o.Class.has("pState.iterDrop") {
+								closed = true
+							}
+						}
+					}
+					if !closed {
+						bad = "the consumer leaves its loop over the iterator without closing the drop signal: the heap loop stays blocked offering the next bar, and with it every later request of the container"
+					}
+				})
+			}
+			r.Check(bad == "", pfx+".L-EARLYEXIT", "iterator consumer in "+fnShort(fn), w.instrPos(op.Instr), "an early exit closes the drop signal first", bad)
+		}
+	}
+	r.Floor(pfx+".L-EARLYEXIT", 2, "the consumers of the heap's iterators (render / flush, traverse)")
+	// H-ITERUSE
+	var iterFn *ssa.Function
+	for fn := range w.heapSenders() {
+		if fn.Signature.Params().Len() == 3 {
+			all := true
+			for i := 0; i < 3; i++ {
+				if _, ok := fn.Signature.Params().At(i).Type().Underlying().(*types.Chan); !ok {
+					all = false
+				}
+			}
+			if all {
+				iterFn = fn
+			}
+		}
+	}
+	if iterFn == nil {
+		r.Undecided(pfx+".H-ITERUSE", "iterator request", "", "request constructor taking (drop, iter, iterPop) not found")
+		return
+	}
+	flush := w.flushFn()
+	for _, site := range w.callers[iterFn] {
+		if site.Parent().Synthetic != "" || site.Common().StaticCallee() != iterFn {
+			continue
+		}
+		args := site.Common().Args
+		ord := args[len(args)-1]
+		construct := "ordered iterator requested in " + fnShort(site.Parent())
+		if isNilConst(ord) {
+			r.HoldsTrivial(pfx+".H-ITERUSE", construct, w.instrPos(site), "unordered only")
+			continue
+		}
+		// the channel handed as ordered iterator (by identity of its make) is received from only in flush
+		mk, _ := w.origin(ord).(*ssa.MakeChan)
+		if mk == nil {
+			r.Undecided(pfx+".H-ITERUSE", construct, w.instrPos(site), "the ordered iterator is not a channel made by the requester")
+			continue
+		}
+		var origins func(v ssa.Value, d int) map[*ssa.MakeChan]bool
+		origins = func(v ssa.Value, d int) map[*ssa.MakeChan]bool {
+			out := map[*ssa.MakeChan]bool{}
+			if d > 4 {
+				return out
+			}
+			switch x := w.origin(v).(type) {
+			case *ssa.MakeChan:
+				out[x] = true
+			case *ssa.Phi:
+				for _, e := range x.Edges {
+					for k := range origins(e, d+1) {
+						out[k] = true
+					}
+				}
+			case *ssa.Parameter:
+				fn := x.Parent()
+				for i, q := range fn.Params {
+					if q != x {
+						continue
+					}
+					for _, s2 := range w.callers[fn] {
+						if s2.Common().StaticCallee() == fn && i < len(s2.Common().Args) {
+							for k := range origins(s2.Common().Args[i], d+1) {
+								out[k] = true
+							}
+						}
+					}
+				}
+			}
+			return out
+		}
+		bad := ""
+		nRecv := 0
+		for _, op := range w.Comm().Ops {
+			if op.Kind != "recv" {
+				continue
+			}
+			u, ok := op.Instr.(*ssa.UnOp)
+			if !ok || !origins(u.X, 0)[mk] {
+				continue
+			}
+			nRecv++
+			if flush == nil || !w.unit(flush)[op.Fn] {
+				bad = "the ordered iterator (which takes the bars out of the heap) is consumed in " + fnShort(op.Fn) + ", which does not push them back: the bars vanish from the container"
+			}
+		}
+		if nRecv == 0 {
+			bad = "the ordered iterator is requested but never consumed"
+		}
+		r.Check(bad == "", pfx+".H-ITERUSE", construct, w.instrPos(site), "consumed by flush only", bad)
+	}
+}
+
 // checkEndOnExit: the container loop sends the end request exactly once on every path to its return.
 func checkEndOnExit(w *World, r *Report, pfx string) {
 	cont := w.containerLoop()
